@@ -186,7 +186,7 @@ type Universe struct {
 	MaxOps   int // program length
 	BatchOps int // program length under walletdb.Batch (a goroutine hand-off per call makes it the slowest kind)
 	// ReopenAll: every kind/outcome is also run with close+reopen after it (one-operation programs);
-	// otherwise only the committing kinds and the View outcomes are.
+	// otherwise only walletdb.Update returning nil is.
 	ReopenAll bool
 	// State bounds: a reached state is expanded only when it has at most
 	// MaxEntries pairs+buckets and no sequence above SeqMax (reached states
@@ -298,21 +298,13 @@ func (u *Universe) build(batchFast, haveBatch bool) {
 	// that leaked it.
 	u.kos = nil
 	if u.ReopenAll {
-		u.kos = append(u.kos, KO{Kind: kView, Out: oNil, MaxOps: 1, Reopen: true})
-	}
-	u.kos = append(u.kos,
-		KO{Kind: kView, Out: oErr, MaxOps: 1, Reopen: true},
-		KO{Kind: kView, Out: oPanic, MaxOps: 1, Reopen: true},
-	)
-	if u.ReopenAll {
-		u.kos = append(u.kos, KO{Kind: kRORollback, MaxOps: 1, Reopen: true})
-	}
-	u.kos = append(u.kos,
-		KO{Kind: kUpdate, Out: oNil, MaxOps: 1, Reopen: true},
-		KO{Kind: kRWCommit, MaxOps: 1, Reopen: true},
-	)
-	if u.ReopenAll {
 		u.kos = append(u.kos,
+			KO{Kind: kView, Out: oNil, MaxOps: 1, Reopen: true},
+			KO{Kind: kView, Out: oErr, MaxOps: 1, Reopen: true},
+			KO{Kind: kView, Out: oPanic, MaxOps: 1, Reopen: true},
+			KO{Kind: kRORollback, MaxOps: 1, Reopen: true},
+			KO{Kind: kUpdate, Out: oNil, MaxOps: 1, Reopen: true},
+			KO{Kind: kRWCommit, MaxOps: 1, Reopen: true},
 			KO{Kind: kUpdate, Out: oErr, MaxOps: 1, Reopen: true},
 			KO{Kind: kUpdate, Out: oPanic, MaxOps: 1, Reopen: true},
 			KO{Kind: kRWRollback, MaxOps: 1, Reopen: true},
@@ -320,6 +312,12 @@ func (u *Universe) build(batchFast, haveBatch bool) {
 		if haveBatch {
 			u.kos = append(u.kos, KO{Kind: kBatch, Out: oNil, MaxOps: 1, Reopen: true})
 		}
+	} else {
+		u.kos = append(u.kos,
+			KO{Kind: kUpdate, Out: oNil, MaxOps: 1, Reopen: true},
+			KO{Kind: kView, Out: oErr, MaxOps: 1},
+			KO{Kind: kView, Out: oPanic, MaxOps: 1},
+		)
 	}
 	u.kos = append(u.kos,
 		KO{Kind: kUpdate, Out: oNil},
